@@ -16,7 +16,7 @@ Notation oid := positive (only parsing).       (* identity of function / IO obje
 
 Inductive value :=
 | VInt (n:Z) | VFloat (x:spec_float) | VBool (b:bool) | VStr (s:list N) | VBytes (s:list N) | VList (l:list value) | VDict (d:list (value * value))
-| VFun (f:funv) | VIO (i:iov) | VErr (sp:list span) (l:list value) | VNil | VThunk (t:positive)
+| VFun (f:funv) | VIO (i:iov) | VErr (sp:list span) (l:list value) | VNil | VThunk (t:positive) | VComplex (re im:spec_float)
 with funv :=
 | FClo (f:positive) | FModule (name:list Z) | FCodec (id:positive) (scheme:Z) (width:Z) (big:option bool) | FPipe (id:positive) (es:list evalr) | FCollect (id:positive) (e:evalr) | FSpread (id:positive) (e:evalr)
 with evalr :=                                   (* what proc_functional returns *)
